@@ -17,9 +17,15 @@ package embedded
 //@   modifies context.storageVersion, sendBlock.Data
 
 // Method lookup by (spork regime of the acknowledged momentum, contract address, ABI selector).
+// Property C17: the method table is chosen by which sporks are active at the acknowledged momentum, in the fixed priority
+// htlc > bridge-and-liquidity > accelerator > origin; the same function serves send-time validation (vm.applySend,
+// GetBasePlasmaForAccountBlock) and receive-time execution (vm.generateEmbeddedReceive).
+//@ spec tableFor(context vm_context.AccountVmContext) map[types.Address]*embeddedImplementation = ite(context.htlc, htlcEmbedded, ite(context.bridge, bridgeAndLiquidityEmbedded, ite(context.accelerator, acceleratorEmbedded, originEmbedded)))
+
 //@ func GetEmbeddedMethod(context, address, abiSelector) -> (m, err)
 //@   ensures[user-address] address[0] != 1 ==> err == constants.ErrNotContractAddress && m == nil
 //@   ensures[contract-address] address[0] == 1 ==> err != constants.ErrNotContractAddress
-//@   ensures[found] err == nil ==> m != nil
 //@   ensures[not-found] err != nil ==> m == nil
+//@   ensures[table-by-spork] address[0] == 1 ==> (err == constants.ErrContractDoesntExist <==> !has(tableFor(context), address))
+//@   ensures[errors] err == nil || err == constants.ErrNotContractAddress || err == constants.ErrContractDoesntExist || err == constants.ErrContractMethodNotFound
 //@   modifies nothing
